@@ -79,6 +79,19 @@ def check_case(ctx, c):
             out.append(("bind:shots", "%s: binding changed the shots of task %d" % (desc, p)))
         if b.circuit != s.circuit.bind(m) or b.circuit.free_symbols:
             out.append(("bind:circuit", "%s: task %d's circuit is not bound with its own map" % (desc, p)))
+    # the same with ONE circuit object shared by all tasks and a different assignment per task
+    from orquestra.quantum.api.estimation import EstimationTask
+    from orquestra.quantum.circuits import RX, Circuit
+
+    shared = Circuit([RX(sympy.Symbol("theta_%d" % q))(q) for q in range(3)])
+    sh_tasks = [EstimationTask(t.operator, shared, t.number_of_shots) for t in tasks]
+    sh_maps = [{sympy.Symbol("theta_%d" % q): np.pi * ((p + q) % 2) + 0.25 * p for q in range(3)} for p in range(len(sh_tasks))]
+    bound = evaluate_estimation_circuits(sh_tasks, sh_maps)
+    for p, (b, m) in enumerate(zip(bound, sh_maps)):
+        if b.circuit != shared.bind(m) or b.circuit.free_symbols:
+            out.append(("bind:shared-circuit", "%s: %d tasks share one circuit object; task %d's circuit is not bound with its own map %s: %s" % (desc, len(sh_tasks), p, m, b.circuit)))
+    if shared.free_symbols != [sympy.Symbol("theta_%d" % q) for q in range(3)]:
+        out.append(("bind:shared-mutated", "%s: the shared circuit was modified" % desc))
     if snap.changed():
         out.append(("mutated", "%s: estimation modified its tasks" % desc))
     return out
@@ -87,7 +100,7 @@ def check_case(ctx, c):
 def run(ctx):
     quick = ctx.tier == "quick"
     mt = 3 if quick else 4
-    ctx.bounds = {"MaxTasks": mt, "templates": 8}
+    ctx.bounds = {"MaxTasks": mt, "templates": 10}
     res = ctx.tlc("Estimation", constants=dict(MaxTasks=mt, Emitting=True), invariants=INV, action_constraints=["Emit"], coverage=False, timeout=3000)
     if len(res.emitted) < 50:
         raise TLCError("Estimation exported only %d lists" % len(res.emitted))
